@@ -883,9 +883,39 @@ def run_samp(ck, hbin, lines, meta, pre=None):
         n = int(h.get("n", 0))
         ck.case(("samp", lines[0], lines[i + 1]), True)
         ck.count("sampler-outputs-checked", n)
+        if m["which"] != "d" and m["kind"] == "u" and h.get("moved") == "0" and n > 0:
+            # a subspace sampler that never changes the state makes the oracle vacuous (e.g. missing location tables):
+            # legitimate only if every leaf of the sampled subspace has a single possible value
+            k = int(m["which"].split()[1])
+            comp = m["space"][1][k][1] if m["space"][0] == "cmp" else \
+                (("rv", m["space"][1], m["space"][2]) if k == 0 else ("so3",))
+            if comp[0] == "wrap":
+                # WrapperStateSpace::computeLocations() fills the INNER space's tables only, so a compound and its wrapper
+                # component have no common substate names: OMPL's SubspaceStateSampler warns "Sampling will have no
+                # effect" and writes nothing (the state stays as it was, in bounds) — expected, counted, not judged
+                ck.count("samp:subspace-sampler-over-wrapper-has-no-effect")
+            elif any(lf[0] in ("a", "q") or (lf[0] == "r" and lf[1] < lf[2]) or (lf[0] == "t" and lf[1] and lf[2] < lf[3])
+                     or (lf[0] == "d" and lf[1] < lf[2]) for lf in leaves(comp)):
+                ck.report({"kind": "infrastructure", "what": "subspace sampler runs are vacuous (no output differs from the centre)"},
+                          script=[lines[0], lines[i + 1]], observed=[line], found_input=False, engine="spacebounds",
+                          obligation="the SubspaceStateSampler under test must write the sampled subspace into the full state")
+                ok = False
+        if m["which"] != "d":
+            ck.count("subspace-sampler-outputs-that-moved", int(h.get("moved", 0)))
         if line == "<missing>" or "bad" not in h or h["bad"] != "0":
             kinds = sorted(set(lf[0] for lf in leaves(m["space"])))
+            # CompoundStateSpace::allocSubspaceStateSampler divides by weightSum_ without the `< eps` guard that
+            # allocDefaultStateSampler has: all-zero weights give a NaN radius (input class of finding F78)
+            cls = "generic"
+            if m["which"] != "d" and m["space"][0] == "cmp" and m["kind"] in ("n", "g"):
+                ws = 0.0
+                for w, _ in m["space"][1]:
+                    ws += w
+                nan_out = any(t.isdigit() and len(t) > 15 and math.isnan(bf(t)) for t in line.split("first=", 1)[-1].split())
+                if ws == 0.0 and nan_out:
+                    cls = "zero-weight-sum-nan"
             rec = {"engine": "spacebounds", "op": "samp", "clause": "sampler-inbounds", "sampler": m["kind"],
+                   "input_class": cls,
                    "which": m["which"].split()[0], "space": m["space"][0], "leaf_kinds": "".join(kinds),
                    "what": "a sampler output does not satisfy the bounds: " + line}
             if ck.report(rec, script=[lines[0], lines[i + 1]], observed=[line], engine="spacebounds"):
@@ -975,7 +1005,16 @@ def run_rebound(ck, hbin, lines, meta, pre=None):
         if bads is None or any(bads):
             kinds = sorted(set(lf[0] for lf in leaves(m["space"])))
             stage = next((j for j, b in enumerate(bads or []) if b), None)
+            cls = "generic"
+            if m["which"].startswith("sub") and m["space"][0] == "cmp" and m["kind"] in ("n", "g"):
+                ws = 0.0
+                for w, _ in m["space"][1]:
+                    ws += w
+                nan_out = any(t.isdigit() and len(t) > 15 and math.isnan(bf(t)) for t in line.split(":", 1)[-1].split())
+                if ws == 0.0 and nan_out:
+                    cls = "zero-weight-sum-nan"       # finding F78 reached through the rebound scenario
             rec = {"engine": "spacebounds", "op": "rebound", "clause": "sampler-inbounds-after-setBounds", "sampler": m["kind"],
+                   "input_class": cls,
                    "which": m["which"].split()[0], "leaf_kinds": "".join(kinds),
                    "mode": m["modes"][stage - 1] if stage else "stage-1",
                    "what": "a sampler allocated before setBounds() produced a state outside the current bounds: " + line[:300]}
